@@ -18,7 +18,8 @@ rundemo() {
       arch|arch_test) sub=arch ;;
       disasm|disasm_test) sub=cmd/seccomp-profiler/disasm ;;
       unix|unix_test) sub=internal/unix ;;
-      main) if grep -q "cmd/sandbox" "$SRC/meta.json"; then sub=cmd/sandbox; else sub=cmd/seccomp-profiler; fi ;;
+      main) where=$(python3 -c "import json,sys; m=json.load(open(sys.argv[1])); print(m.get('demo',''))" "$SRC/meta.json" 2>/dev/null)
+            if echo "$where" | grep -q "cmd/seccomp-profiler"; then sub=cmd/seccomp-profiler; elif echo "$where" | grep -q "cmd/sandbox"; then sub=cmd/sandbox; elif grep -q "cmd/sandbox" "$SRC/meta.json"; then sub=cmd/sandbox; else sub=cmd/seccomp-profiler; fi ;;
       *) sub=zz_seeddemo; mkdir -p "$W/zz_seeddemo" ;;
     esac
     for f in "$SRC"/*_test.go; do cp "$f" "$W/$sub/zz_seed_$(basename "$f")"; done
